@@ -1031,7 +1031,7 @@ static void hook_quiescent(struct vk_wait *w)
 	if (any_due(NULL, 0)) fail_any("hang-while-due", "loop blocks forever while a wanted descriptor is ready");
 	vz_label(L_ENDED_BLOCKED);
 	{ uint64_t h = 1469598103934665603ull; for (int k = 0; k < NKIND; k++) for (int i = 0; i < MAXTIMER; i++) for (int b = 0; b < 3; b++) { h ^= (uint64_t)summary_cnt[k][i][b] + 1; h *= 1099511628211ull; }
-	  vz_count(6, poll_calls); vz_count(7, (long)(h & 0x7fffffff)); if (vz_has_label(L_FAULT_HIT) && !strncmp(vz_prop, "C15", 3)) vz_nontrivial(); }
+	  vz_count(6, poll_calls); vz_count(7, (long)(h & 0x7fffffff)); vz_count(10, conf_block_no); if (vz_has_label(L_FAULT_HIT) && !strncmp(vz_prop, "C15", 3)) vz_nontrivial(); }
 	vz_log("case ends: loop legitimately blocked forever (%d objects registered, none can become due)", n_registered());
 	vz_finish();
 }
@@ -1256,7 +1256,7 @@ void target_run(void)
 	if (nt) vz_nontrivial();
 	vz_count(4, callbacks_total); vz_count(5, iter); vz_count(6, poll_calls);
 	{ uint64_t h = 1469598103934665603ull; for (int k = 0; k < NKIND; k++) for (int i = 0; i < MAXTIMER; i++) for (int b = 0; b < 3; b++) { h ^= (uint64_t)summary_cnt[k][i][b] + 1; h *= 1099511628211ull; }
-	  vz_count(7, (long)(h & 0x7fffffff)); }
+	  vz_count(7, (long)(h & 0x7fffffff)); vz_count(10, conf_block_no); }
 }
 
 size_t target_gen(uint64_t seed, uint64_t index, uint8_t *buf, size_t cap)
